@@ -69,20 +69,57 @@ theorem icNb0_pos (mDot rhoP de : ℝ) (hm : 0 < mDot) (hr : 0 < rhoP) (hd : 0 <
   rw [icNb0_eq mDot rhoP de (ne_of_gt hr) (ne_of_gt hd)]
   positivity
 
-/-- mass of one particle `m_dot / nb0` = density × volume of the sphere -/
-theorem mdot_div_nb0 (mDot rhoP de : ℝ) (hm : mDot ≠ 0) (hr : rhoP ≠ 0) (hd : de ≠ 0) :
-    mDot / icNb0 mDot rhoP de = rhoP * pi * de ^ 3 / 6 := by
+/-- closed form of l.581 -/
+theorem icMass_eq (rhoP de : ℝ) : icMass rhoP de = rhoP * pi * de ^ 3 / 6 := by
+  simp only [icMass, Num.real_ofSci, Num.real_npow]
+  norm_num
+  ring
+
+theorem icMass_pos (rhoP de : ℝ) (hr : 0 < rhoP) (hd : 0 < de) : 0 < icMass rhoP de := by
+  have hp := pi_pos
+  rw [icMass_eq]
+  positivity
+
+/-- number flux × mass of one particle = total mass flux (also when the flux is zero) -/
+theorem nb0_mul_mass (mDot rhoP de : ℝ) (hr : rhoP ≠ 0) (hd : de ≠ 0) :
+    icNb0 mDot rhoP de * icMass rhoP de = mDot := by
   have hp := pi_ne
-  rw [icNb0_eq mDot rhoP de hr hd]
+  rw [icNb0_eq mDot rhoP de hr hd, icMass_eq]
   field_simp
 
-/-- `nb0 • (m_dot / nb0 • mf) = m_dot • mf` -/
-theorem flux_core (mDot nb0 : ℝ) (mf : List ℝ) (h : nb0 ≠ 0) :
-    (mf.map (mDot / nb0 * ·)).map (nb0 * ·) = mf.map (mDot * ·) := by
-  rw [map_map_mul]
-  congr 1
-  funext x
+/-- `nb0 • (mass • mf) = m_dot • mf` -/
+theorem flux_core (mDot rhoP de : ℝ) (mf : List ℝ) (hr : rhoP ≠ 0) (hd : de ≠ 0) :
+    (mf.map (icMass rhoP de * ·)).map (icNb0 mDot rhoP de * ·) = mf.map (mDot * ·) := by
+  rw [map_map_mul, nb0_mul_mass mDot rhoP de hr hd]
+
+/-- 6 · mass / (π ρ) = de³ -/
+theorem six_mass (rhoP de : ℝ) (hr : rhoP ≠ 0) : 6 * icMass rhoP de / (pi * rhoP) = de ^ 3 := by
+  have hp := pi_ne
+  rw [icMass_eq]
   field_simp
+
+/-- weights `y ≥ 0` with positive total against positive molar masses: `Σ y_i M_i > 0` -/
+theorem masses_sum_pos_aux : ∀ (y M : List ℝ), y.length = M.length → (∀ x ∈ M, 0 < x) → (∀ x ∈ y, 0 ≤ x) →
+    0 ≤ (List.zipWith (· * ·) y M).sum ∧ (0 < y.sum → 0 < (List.zipWith (· * ·) y M).sum)
+  | [], [], _, _, _ => by simp
+  | [], _ :: _, h, _, _ => by simp at h
+  | _ :: _, [], h, _, _ => by simp at h
+  | y :: ys, m :: ms, h, hM, hy => by
+      have hm : 0 < m := hM m (by simp)
+      have hy0 : 0 ≤ y := hy y (by simp)
+      have ih := masses_sum_pos_aux ys ms (by simpa using h) (fun x hx => hM x (by simp [hx]))
+        (fun x hx => hy x (by simp [hx]))
+      simp only [List.zipWith_cons_cons, List.sum_cons]
+      refine ⟨add_nonneg (mul_nonneg hy0 (le_of_lt hm)) ih.1, fun hs => ?_⟩
+      rcases lt_or_eq_of_le hy0 with hpos | hzero
+      · exact add_pos_of_pos_of_nonneg (mul_pos hpos hm) ih.1
+      · have : 0 < ys.sum := by rw [← hzero] at hs; simpa using hs
+        rw [← hzero]
+        simpa using ih.2 this
+
+theorem masses_sum_pos (M yk : List ℝ) (hl : yk.length = M.length) (hM : ∀ x ∈ M, 0 < x)
+    (hy : ∀ x ∈ yk, 0 ≤ x) (hs : 0 < yk.sum) : 0 < (masses M yk).sum :=
+  (masses_sum_pos_aux yk M hl hM hy).2 hs
 
 /-! ### mass and mole fractions -/
 
